@@ -1,6 +1,7 @@
 //! Shared machinery of the correspondence harness: PRNG, hex list codec, the pipe to the
 //! extracted-model driver, the per-run report.
 pub mod urlrec;
+pub mod urlops;
 use std::collections::{BTreeMap, HashSet};
 use std::io::{BufRead, BufReader, Write};
 use std::process::{Child, ChildStdin, ChildStdout, Command, Stdio};
@@ -190,7 +191,8 @@ impl Report {
             self.distinct.insert(fnv(request));
             let new_sig = self.signatures.insert(fnv(sig));
             if new_sig && self.samples.len() < 12 {
-                self.samples.push(format!("{} => {}", request, imp));
+                let clip = |s: &str| if s.len() > 400 { format!("{}…", &s[..s.char_indices().nth(400).map(|(i, _)| i).unwrap_or(s.len())]) } else { s.to_string() };
+                self.samples.push(format!("{} => {}", clip(request), clip(imp)));
             }
         }
         if model != imp {
